@@ -308,6 +308,8 @@ func main() {
 	wideWitnesses(run)
 	wideHistories(run, run.Scale(120, 300), 30)
 	lap("wide_histories")
+	tagHistories(run, run.Scale(60, 400), 14)
+	lap("tag_histories")
 	pre, ls := catalogAlphabet()
 	exhaustive(run, "catalog", qs, pre, ls, run.Scale(2, 3))
 	pre, ls = kvAlphabet()
